@@ -6,6 +6,7 @@ G1 (grammar-directed), all short strings over delimiter alphabets from G2
 (bounded-exhaustive), malformed inputs from G3, automaton-guided words from G4.
 """
 import itertools
+import re
 import json
 import random
 
@@ -339,6 +340,10 @@ def stream_parts(rng, tier):
     for s in exhaustive("é:/?#", 4 if tier == "quick" else 5):
         yield "parts i ref %s" % hx(s)
         yield "parts i full %s" % hx(s)
+    for s in dict_refs():
+        for f in "ui":
+            yield "parts %s ref %s" % (f, hx(s))
+            yield "parts %s full %s" % (f, hx(s))
     n = 12000 if tier == "quick" else 200000
     for _ in range(n):
         f = rng.choice("ui")
@@ -457,6 +462,12 @@ def stream_setters(rng, tier):
                 for fam in ("u",) if tier == "quick" else ("u", "i"):
                     yield "hist %s ref %s %s:%s" % (fam, hx(b), op, ohx(v))
                 if ":" in b and not (op == "ss" and v is None):
+                    yield "hist u full %s %s:%s" % (hx(b), op, ohx(v))
+    for b in dict_refs():
+        for op, vals in SETTER_VALUES.items():
+            for v in vals[:6] if op != "ss" else vals:
+                yield "hist u ref %s %s:%s" % (hx(b), op, ohx(v))
+                if not (op == "ss" and v is None):
                     yield "hist u full %s %s:%s" % (hx(b), op, ohx(v))
     # the *old* component holds escapes and multi-byte characters (byte length differs from the
     # decoded length and from the character count): every setter, all four buffer types
@@ -709,6 +720,12 @@ def stream_resolve(rng, tier):
     for r in exhaustive("a/.:?#", k):
         for b in bases if tier == "thorough" else bases[:15]:
             yield "resolve u %s %s" % (hx(b), hx(r))
+    for r in dict_refs():
+        for b in ["s://h/a/b", "s:a/b", "s:/a", "s://h/a/b?q#f"]:
+            yield "resolve u %s %s" % (hx(b), hx(r))
+        for r2 in ["", "#s", "?y", "g", "./g/.", "../g", "/g", "//g", "../../../g", "g/../h/."]:
+            yield "resolve u %s %s" % (hx(r), hx(r2))
+            yield "resolve i %s %s" % (hx(r), hx(r2))
     for r in exhaustive("a/.", 4 if tier == "quick" else 5):
         for b in ["s://h/a/b", "s:a/b", "s:/a"]:
             yield "resolve u %s %s" % (hx(b), hx("//h2" + ("/" + r if r else "")))
@@ -769,6 +786,11 @@ def stream_cmp(rng, tier):
         for f in "ui":
             yield "cmp %s full %s %s" % (f, hx(a), hx(b))
         yield "cross u %s %s" % (hx(a), hx(b))
+    for a in dict_refs():
+        for b in [a, a.upper(), a.lower(), a + "/", a.replace("//", "//localhost", 1) if "//" in a else a + "x"]:
+            for f in "ui":
+                yield "cmp %s ref %s %s" % (f, hx(a), hx(b))
+                yield "cmp %s full %s %s" % (f, hx(a), hx(b))
     paths = ["", "/", "a", "/a", "a/", "a/.", "a/./", "a/b/..", "a/b/../", "..", "../a", "a/../..",
              "/..", "/a/..", "//", "/./", "./", ".", "a//b", "a/b", "%61", "a/%2E", "a/./b", "/.//a",
              "//a", "a/../b", "b", "%2e", "a/%2E%2E/..", "%2e%2e/..", "/%2E%2E/../b", "/b", "a/%2E/..",
@@ -964,6 +986,12 @@ def stream_relto(rng, tier):
     for a, b in policy_pairs():
         for f in "ui":
             yield "relto %s %s %s" % (f, hx(a), hx(b))
+    for a in dict_refs():
+        stem = a.split("#")[0].split("?")[0]
+        for b in [a, stem, stem.rsplit("/", 1)[0] if "/" in stem else stem, stem + "/x/y", a.upper()]:
+            for f in "ui":
+                yield "relto %s %s %s" % (f, hx(a), hx(b))
+                yield "relto %s %s %s" % (f, hx(b), hx(a))
     # the same document, or the same directory, with every combination of absent / empty / non-empty
     # query and fragment on either side (an empty query is not an absent one)
     qs, fs = [None, "", "q", "x=1"], [None, "", "f"]
@@ -1030,6 +1058,14 @@ def stream_suffix(rng, tier):
         for f in "ui":
             yield "suffix %s full %s %s" % (f, hx(a), hx(b))
             yield "suffix %s ref %s %s" % (f, hx(a), hx(b))
+    for a in dict_refs():
+        stem = a.split("#")[0].split("?")[0]
+        for b in [a, stem, stem.rsplit("/", 1)[0] if "/" in stem else stem, a.upper()]:
+            for f in "ui":
+                yield "suffix %s full %s %s" % (f, hx(a), hx(b))
+                yield "suffix %s ref %s %s" % (f, hx(a), hx(b))
+        yield "base u ref %s" % hx(a)
+        yield "base u full %s" % hx(a)
     # the same path pairs inside whole references, through each of the four entry points: a prefix
     # spelt with dot segments is textually longer than the value it is a prefix of
     aps = [p for p in exhaustive("a/.", 4)]
@@ -1243,6 +1279,10 @@ PCT_ATOMS = ["a", "%41", "%C3%A9", "%c3%a9", "é", "%E2%82%AC", "%F0%9F%98%80", 
              "%E2", "%82", "%AC", "%F0%9F", "%98%80", "%c0%80", "%FE", "%7F", "%C2%80"]
 
 
+PCT_MARKERS = [":~:", "a:~:text=b%20c", "~:~", "!/x", "a=1&b=2;c=3", "q=a+b", "xn--bcher-kva", "www.a", "..", ".", "a..b",
+               "%2B+", "&amp;", ";jsessionid=1", ";v=1", "@", "a@b", "::", "~", "%7e%7E", "-._~"]
+
+
 def stream_pct(rng, tier):
     """C19"""
     kinds = ["segment", "userinfo", "host", "query", "fragment"]
@@ -1266,9 +1306,7 @@ def stream_pct(rng, tier):
         extra = {"segment": (":", "@"), "userinfo": (":",), "host": (), "query": (":", "@", "/", "?"),
                  "fragment": (":", "@", "/", "?")}[k2]
         yield "pct %s %s %s" % (f, k2, hx(rand_component(rng, f, extra, private=(k2 == "query"))))
-    markers = [":~:", "a:~:text=b%20c", "~:~", "!/x", "a=1&b=2;c=3", "q=a+b", "xn--bcher-kva", "www.a", "..", ".", "a..b",
-               "%2B+", "&amp;", ";jsessionid=1", ";v=1", "@", "a@b", "::", "~", "%7e%7E", "-._~"]
-    for mk in markers:
+    for mk in PCT_MARKERS:
         for k3 in kinds:
             allowed = {"segment": ":@", "userinfo": ":", "host": "", "query": ":@/?", "fragment": ":@/?"}[k3]
             if any(c in ":@/?" and c not in allowed for c in mk):
@@ -1314,6 +1352,10 @@ def stream_ptr(rng, tier):
         yield "ptr i ref %s" % hx(s)
         if "é" not in s:
             yield "ptr u ref %s" % hx(s)
+    for s in dict_refs():
+        for f in "ui":
+            yield "ptr %s ref %s" % (f, hx(s))
+            yield "ptr %s full %s" % (f, hx(s))
     # a delimiter repeated more often than any small inline buffer of positions could hold
     for k in [1, 3, 4, 5, 6, 9, 17, 33, 70]:
         reps = ["s://" + "a:" * k + "b@h:80/p", "s://" + ":" * k + "@h:80/p", "s://u@" + "a." * k + "b:80/",
@@ -1345,6 +1387,124 @@ def stream_ptr(rng, tier):
         big = "s://u@h:1" + "/seg" * k + "/../x?" + "q" * 1000 + "#" + "f" * 1000
         yield "ptrbig u full %s" % hx(big)
         yield "ptrbig i ref %s" % hx(big.replace("seg", "sé"))
+
+
+# ---------------------------------------------------------------------------
+# dictionary: the string literals of the crate's own sources
+#
+# A special case keyed on a value (`file`, `localhost`, `:~:`, a default port ...) has to spell that
+# value in the source.  bin/check extracts every short string literal of the sources under test
+# on every run and hands them over here; they join the lists the streams draw from (as schemes,
+# hosts, ports, segments, queries, fragments, media types, whole references, each where the
+# grammar allows the token), with an upper-case spelling and a one-character extension, so that
+# whatever value a change singles out is exercised next to its neighbours.
+
+DICT_LISTS = ["SCHEMES", "HOSTS", "HOSTS_I", "PORTS", "SEGS", "SEGS_I", "QUERIES", "QUERIES_I", "FRAGS", "FRAGS_I",
+              "USERINFOS", "USERINFOS_I", "POLICY_SCHEMES", "POLICY_AUTHS", "PCT_MARKERS", "DATA_MT", "DICT_REFS"]
+DICT_REFS = []
+_ORIG = None
+DICT_INFO = {"tokens": 0}
+
+
+def _pct_ok(t):
+    i = 0
+    while i < len(t):
+        if t[i] == "%":
+            if not re.fullmatch(r"[0-9A-Fa-f]{2}", t[i + 1:i + 3]):
+                return False
+            i += 3
+        else:
+            i += 1
+    return True
+
+
+def set_dictionary(tokens, baseline=(), cap=48):
+    """`baseline`: the literals of the tree the machinery was written against (dict_baseline.json);
+    a literal that is not in it is new in the tree under test and is never dropped by the caps"""
+    global _ORIG
+    baseline = set(baseline)
+    g = globals()
+    if _ORIG is None:
+        _ORIG = {n: list(g[n]) for n in DICT_LISTS}
+        _ORIG["ss"] = list(SETTER_VALUES["ss"])
+    for n in DICT_LISTS:
+        g[n][:] = _ORIG[n]
+    SETTER_VALUES["ss"][:] = _ORIG["ss"]
+    toks = sorted(set(t for t in tokens if t and t.isascii() and t.isprintable() and not re.search(r"\s", t)),
+                  key=lambda x: (len(x), x))
+    unres = r"A-Za-z0-9._~\-"
+    sub = r"!$&'()*+,;="
+    cls = {
+        "scheme": [t for t in toks if re.fullmatch(r"[A-Za-z][A-Za-z0-9+.\-]*", t) and len(t) <= 12],
+        "host": [t for t in toks if re.fullmatch("[%s%s%%]+" % (unres, sub), t) and _pct_ok(t) and len(t) <= 24],
+        "port": [t for t in toks if re.fullmatch(r"[0-9]+", t)],
+        "seg": [t for t in toks if re.fullmatch("[%s%s%%:@]+" % (unres, sub), t) and _pct_ok(t) and len(t) <= 24],
+        "query": [t for t in toks if re.fullmatch("[%s%s%%:@/?]+" % (unres, sub), t) and _pct_ok(t) and len(t) <= 24],
+        "media": [t for t in toks if re.fullmatch(r"[A-Za-z0-9.+\-]+/[A-Za-z0-9.+\-]+", t)],
+        "ref": [t for t in toks if (":" in t or t.startswith("/") or "?" in t or "#" in t) and len(t) <= 40],
+    }
+
+    def pick(name):
+        fresh = [t for t in cls[name] if t not in baseline][:200]
+        lst = [t for t in cls[name] if t in baseline]
+        if len(lst) <= cap:
+            return fresh + lst
+        # shortest first, then an even sample of the rest
+        head, rest = lst[:cap // 2], lst[cap // 2:]
+        step = max(1, len(rest) // (cap - cap // 2))
+        return fresh + head + rest[::step][:cap - cap // 2]
+
+    def new(lst, items):
+        seen = set(x for x in lst if isinstance(x, str))
+        for it in items:
+            if it not in seen:
+                lst.append(it)
+                seen.add(it)
+
+    def variants(t):
+        return [t, t.upper(), t.lower(), t + "x", t[:-1]] if len(t) > 1 else [t]
+
+    sch = [v for t in pick("scheme") for v in variants(t) if re.fullmatch(r"[A-Za-z][A-Za-z0-9+.\-]*", v)]
+    new(SCHEMES, sch)
+    new(POLICY_SCHEMES, [t for t in pick("scheme") if len(t) >= 3][:16])
+    new(SETTER_VALUES["ss"], pick("scheme")[:16])
+    hosts = [v for t in pick("host") for v in variants(t) if v]
+    new(HOSTS, hosts)
+    new(HOSTS_I, hosts)
+    for t in pick("host")[:24]:
+        for pair in [("", t), (t, t.upper()), (t, t + "."), (t, "www." + t)]:
+            if pair not in POLICY_AUTHS and pair[0] != pair[1]:
+                POLICY_AUTHS.append(pair)
+    new(PORTS, [v for t in pick("port") for v in (t, "0" + t, t + "0")])
+    for lst in (SEGS, SEGS_I):
+        new(lst, [v for t in pick("seg") for v in variants(t) if v and "/" not in v])
+    for lst in (QUERIES, QUERIES_I, FRAGS, FRAGS_I):
+        new(lst, pick("query"))
+    for lst in (USERINFOS, USERINFOS_I):
+        new(lst, [t for t in pick("seg") if "@" not in t][:24])
+    new(PCT_MARKERS, pick("query"))
+    new(DATA_MT, pick("media"))
+    new(DICT_REFS, pick("ref"))
+    DICT_INFO["tokens"] = len(toks)
+    DICT_INFO["by_class"] = {k: len(v) for k, v in cls.items()}
+    DICT_INFO["not_in_baseline"] = [t for t in toks if t not in baseline][:50]
+
+
+def dict_refs():
+    """whole references built around the dictionary: each scheme-like token with and without an
+    authority, each reference-like token as it stands"""
+    out = []
+    for t in DICT_REFS:
+        out.append(t)
+    for sc in POLICY_SCHEMES:
+        for tail in ["", "a", "/a/b", "//h/a/b?q#f", "//", "//h", "///a", "?q", "#f", "a/./b/../c", "//u@h:80/./a/../b"]:
+            out.append(sc + ":" + tail)
+    seen, res = set(), []
+    for r in out:
+        if r not in seen:
+            seen.add(r)
+            res.append(r)
+    return res
 
 
 STREAMS = {
